@@ -1304,7 +1304,9 @@ func (e *Engine) typeInv(v T, t types.Type, depth int) T {
 	case *types.Basic:
 		switch u.Kind() {
 		case types.Uint8:
-			return T{fmt.Sprintf("(and (<= 0 %s) (<= %s 255))", v.S, v.S), sBool}
+			if v.Sort == sInt {
+				return T{fmt.Sprintf("(and (<= 0 %s) (<= %s 255))", v.S, v.S), sBool}
+			}
 		}
 	case *types.Struct:
 		if depth > 1 || e.isIntrinsicStruct(t) {
